@@ -7,6 +7,7 @@ PROP = {
         "GunYu.Props.C05.disk_snapshot_reader_delivers",
         "GunYu.Props.C05.disk_gc_keeps_contiguous_suffix",
         "GunYu.Props.C05.disk_range_contiguous",
+        "GunYu.Props.C05.disk_refines",
         "GunYu.Props.C05.disk_closed_reader_read_fails",
         "GunYu.Props.C05.disk_closed_reader_frozen",
         "GunYu.Props.C05.disk_reset_closes_readers",
@@ -59,8 +60,8 @@ PROP = {
         "mem_reader_delivers_stmt (global refinement of the memory backend over operation lists) is stated, not proved; proved for memory are the step-level theorems "
         "(every state, hence every interleaving): refusal of discontinuous writers, collector removes only a closed unreferenced prefix, snapshot offered iff replayable + "
         "finishRdb/collector make it unreplayable when incomplete, copy steps deliver exactly the held segment's bytes, reset empties the index and successor lookup is by identity",
-        "disk refinement as a single `abs` commuting diagram is not stated; its content is proved as invariants over all well-formed operation lists "
-        "(disk_reader_delivers, disk_range_contiguous, disk_valid_iff_readable, disk_snapshot_offered_iff_complete, disk_gc_keeps_contiguous_suffix)",
+        "disk refinement is proved as `abs s = suffix of the written history from abs.base` in every reachable state (disk_refines) + the per-op history lemma; "
+        "a separate abstract transition system with a simulation relation is not defined",
         "the concurrent stress phase covers the memory writer close/rotation race only; a full -race run with several readers, writer and collector is not part of the check",
     ],
 }
